@@ -832,4 +832,19 @@ theorem tie_validateSecret (s prev : String) :
     withJwtCalls = [("validateSecret", ["secret"])] ∧ withJwtTransitionCalls = [("validateSecret", ["secret"])] :=
   ⟨rfl, rfl, rfl, rfl, rfl⟩
 
+/-- **`WithCors`** (model `RunOpt.cors`, `Server.serveHTTP`): the not-allowed handler is set on the router FIRST, then the
+router is wrapped; the wrapper runs `cors.Middleware` around the embedded router's `ServeHTTP`; the middleware answers
+itself exactly when the method is `OPTIONS` (the model's preflight test). -/
+theorem tie_withCors (s : Server) (m p : String) :
+    withCorsStmts = [
+      "return func(server *Server){...}",
+      "func{",
+      "server.router.SetNotAllowedHandler(cors.NotAllowedHandler(nil, origin...))",
+      "server.router = newCorsRouter(server.router, nil, origin...)",
+      "}"] ∧
+    newCorsRouterStmts = ["return &corsRouter{ Router: router, middleware: cors.Middleware(headerFn, origins...), }"] ∧
+    corsRouterServeStmts = ["c.middleware(c.Router.ServeHTTP)(w, r)"] ∧
+    s.serveHTTP m p = (if s.cors && condCorsPreflight m then .preflight else .router (s.router.serveHTTP m p)) ∧
+    condCorsNAOptions m = condCorsPreflight m := ⟨rfl, rfl, rfl, rfl, rfl⟩
+
 end GoZero.C09.Tie
